@@ -81,6 +81,26 @@ Theorem c10_one_group_per_shape :
 Proof. exact batch_groups_bound. Qed.
 Print Assumptions c10_one_group_per_shape.
 
+(** Which calls are batched at all: a call with SelectOptions (Limit, OrderBy, AllowNoIndex, ForUpdate, index
+    hints, free text -- any options value, FullScanQuery always passes one) is answered by a statement of
+    its own carrying those options, on every context; only a call without options, outside a transaction,
+    on a batching context goes to the batch function.  (The harness compares, per call and for every
+    options value, the result on a batching context with the result without.) *)
+Theorem c10_call_with_options_has_its_own_statement :
+  forall h t c f o w,
+    make_where t f = Some w -> check_filter_limits h f = true ->
+    run h t c (OQuery f (Some o))
+    = ([EStmt (SSelect (t_name t) (col_names t) (WSimple w) (Some o))], Proceeds).
+Proof. exact options_own_statement. Qed.
+Print Assumptions c10_call_with_options_has_its_own_statement.
+
+Theorem c10_call_without_options_is_batched :
+  forall h t f w,
+    make_where t f = Some w -> check_filter_limits h f = true ->
+    run h t (mk_ctx false true) (OQuery f None) = ([EStmt (batch_stmt t [f])], Proceeds).
+Proof. exact no_options_batched. Qed.
+Print Assumptions c10_call_without_options_is_batched.
+
 (** * Non-vacuity *)
 Example ex_hypotheses_hold :
   table_ok w_users = true /\ columns_ok w_users = true
